@@ -232,6 +232,18 @@ func applyMut(m Mut, q sigreq.Req, s *sigreq.Signed, body []byte) ([]byte, bool)
 			return nil, false
 		}
 		return sigreq.OversizeChunk(body, c, m.Kind == "oversize-same-length")
+	case "truncate-after-header": // the body ends right after a chunk header line: no byte of that chunk arrives
+		c, ok := pick(data)
+		if !ok {
+			return nil, false
+		}
+		return append([]byte(nil), body[:c.DataStart]...), true
+	case "truncate-in-data": // the body ends inside chunk data (Off picks the place; multiples of the usual buffer sizes included)
+		c, ok := pick(data)
+		if !ok || c.Size < 2 {
+			return nil, false
+		}
+		return append([]byte(nil), body[:c.DataStart+1+m.Off%(c.Size-1)]...), true
 	case "truncate": // cut at a chunk boundary: the later chunks, the final chunk and the trailer never arrive
 		c, ok := pick(data)
 		if !ok || c.End == data[len(data)-1].End {
@@ -256,7 +268,7 @@ func nextHex(c byte) byte {
 }
 
 var mutKinds = []string{"data-flip", "data-flip", "chunk-sig", "chunk-sig", "trailer-value", "trailer-value", "trailer-sig", "trailer-remove", "len-minus", "len-plus", "len-huge", "len-junk",
-	"shrink", "drop-chunk", "dup-chunk", "swap-chunks", "truncate", "oversize", "oversize-same-length"}
+	"shrink", "drop-chunk", "dup-chunk", "swap-chunks", "truncate", "truncate-after-header", "truncate-in-data", "oversize", "oversize-same-length"}
 
 func run(env *ev.Env, c Case) (o ev.Outcome) {
 	q := c.Req
@@ -566,7 +578,12 @@ func genCase(t *rapid.T, env *ev.Env) Case {
 					kinds = append(kinds, k)
 				}
 			}
-			c.Muts = append(c.Muts, Mut{Kind: rapid.SampledFrom(kinds).Draw(t, "mutKind"), Chunk: rapid.IntRange(0, 40).Draw(t, "mutChunk"), Off: rapid.IntRange(0, 70000).Draw(t, "mutOff")})
+			m := Mut{Kind: rapid.SampledFrom(kinds).Draw(t, "mutKind"), Chunk: rapid.IntRange(0, 40).Draw(t, "mutChunk"), Off: rapid.IntRange(0, 70000).Draw(t, "mutOff")}
+			if m.Kind == "truncate-in-data" && rapid.Bool().Draw(t, "mutAligned") {
+				// the cut lands on a multiple of a usual read-buffer size (Off+1 bytes of the chunk arrive)
+				m.Off = rapid.SampledFrom([]int{512, 1024, 4096, 8192, 32768}).Draw(t, "mutAlign")*rapid.IntRange(1, 8).Draw(t, "mutAlignN") - 1
+			}
+			c.Muts = append(c.Muts, m)
 		}
 	}
 	return c
@@ -587,7 +604,7 @@ func directed(env *ev.Env) []Case {
 				for _, te := range []bool{false, true} {
 					c := Case{Auth: auth, Target: "put", Stack: "sql", Req: sigreq.Req{Mode: mode, Region: "us-east-1", Body: gen.BodySpec{Kind: "text", Len: 150}, Chunks: []int{7, 64, 1}, Trailer: alg, Framing: "sdk", TE: te}}
 					if auth == "enabled" {
-						for _, k := range []string{"data-flip", "chunk-sig", "trailer-value", "trailer-sig", "trailer-remove", "len-minus", "len-plus", "len-huge", "len-junk", "shrink", "drop-chunk", "dup-chunk", "swap-chunks", "truncate", "oversize", "oversize-same-length"} {
+						for _, k := range []string{"data-flip", "chunk-sig", "trailer-value", "trailer-sig", "trailer-remove", "len-minus", "len-plus", "len-huge", "len-junk", "shrink", "drop-chunk", "dup-chunk", "swap-chunks", "truncate", "truncate-after-header", "truncate-in-data", "oversize", "oversize-same-length"} {
 							if k == "len-huge" && !(alg == "crc32" && te) {
 								continue // wedges the instance (KF-C30-3): keep it to one directed case per mode
 							}
